@@ -2,8 +2,8 @@
 
 DynGroup has no registry entry of its own: it is driven from MemberOf. Decided: `DynGroup::post_create` /
 `DynGroup::post_modify` are invoked (propagated) from MemberOf's create / modify inner functions *before* the memberOf
-fix-point on every success path; the MemberOf hooks of post-create, post-repl-refresh (create flavour) and
-post-modify, post-batch-modify, post-repl-incremental (modify flavour) go through those inner functions; MemberOf is in
+fix-point on every success path of each MemberOf hook: post-create, post-repl-refresh (create flavour) and
+post-modify, post-batch-modify, post-repl-incremental (modify flavour), helpers inlined; MemberOf is in
 the corresponding registries and the operations call them after the backend write.
 Not decided: that apply_dyngroup_change computes exactly the set of entries matching the filter.
 """
@@ -24,11 +24,8 @@ META = dict(
 WHY = "dynamic group membership would not follow this kind of write"
 CREATE_FLAVOUR = ["run_post_create", "run_post_repl_refresh"]
 MODIFY_FLAVOUR = ["run_post_modify", "run_post_batch_modify", "run_post_repl_incremental"]
-INNER = {"post_create_inner": "plugins::dyngroup::DynGroup::post_create",
-         "post_modify_inner": "plugins::dyngroup::DynGroup::post_modify"}
-HOOK_TO_INNER = {"post_create": "post_create_inner", "post_repl_refresh": "post_create_inner",
-                 "post_modify": "post_modify_inner", "post_batch_modify": "post_modify_inner",
-                 "post_repl_incremental": "post_modify_inner"}
+HOOK_TO_DYN = {"post_create": "post_create", "post_repl_refresh": "post_create",
+               "post_modify": "post_modify", "post_batch_modify": "post_modify", "post_repl_incremental": "post_modify"}
 
 
 def is_to(*sfx):
@@ -46,30 +43,24 @@ def run(ctx):
         P.contains("K2-contains", r, "MemberOf", "DynGroup is only driven from MemberOf's hooks; " + WHY)
     P.check_registries("K2-propagated", runs, {"MemberOf"})
     P.check_ops("K2-op", runs, need_pre=False)
-    # MemberOf hook -> inner function (no inlining: we want the direct delegation)
-    for hook, inner in HOOK_TO_INNER.items():
+    # every MemberOf hook: DynGroup's update (propagated) on every success path, and before the memberOf fix-point.
+    # Helper functions of MemberOf (today post_create_inner / post_modify_inner) are inlined, so their names do not matter.
+    for hook, flavour in HOOK_TO_DYN.items():
+        dyn = "plugins::dyngroup::DynGroup::" + flavour
         rec = hook_fn(ctx, "memberof", "MemberOf", hook)
-        fl = Flow(ctx.facts, LIB, {"I": is_to("plugins::memberof::MemberOf::" + inner)}, no_inline=())
-        succ = success_exits(fl.run(rec))
-        ctx.check(bool(succ) and all("I" in x.st.must for x in succ), "K2-dyngroup", rec["fn"], f"via:{inner}",
-                  f"MemberOf::{hook} -> MemberOf::{inner} on every success path",
-                  f"MemberOf::{hook} can succeed without going through MemberOf::{inner}, the only place DynGroup is invoked — {WHY}",
-                  file=rec["file"], line=rec["line"])
-    # inner function: DynGroup first (propagated), then the fix-point
-    for inner, dyn in INNER.items():
-        rec = ctx.fn(LIB, "kanidmd_lib::plugins::memberof::MemberOf::" + inner)
         fl = Flow(ctx.facts, LIB, {"D": is_to(dyn), "A": is_to("plugins::memberof::apply_memberof")},
                   no_inline={"kanidmd_lib::" + dyn, "kanidmd_lib::plugins::memberof::apply_memberof"})
         succ = success_exits(fl.run(rec))
         dsites, asites = fl.ordered_sites("D"), fl.ordered_sites("A")
         ctx.check(bool(dsites) and bool(succ) and all("D" in x.st.must for x in succ), "K2-dyngroup", rec["fn"], f"calls:{short(dyn, 2)}",
-                  f"{short(dyn, 2)} propagated on every success path",
-                  f"MemberOf::{inner} has a success path without a propagated call of {short(dyn, 2)} — {WHY}",
+                  f"{short(dyn, 2)} propagated on every success path of MemberOf::{hook}",
+                  f"MemberOf::{hook} has a success path without a propagated call of {short(dyn, 2)} (directly or through its helpers) — {WHY}",
                   file=rec["file"], line=rec["line"])
         ctx.check(bool(asites) and all("D" in a.st.must for a in asites), "K2-dyngroup", rec["fn"], "dyngroup-before-fixpoint",
                   f"{short(dyn, 2)} succeeded before apply_memberof",
-                  f"MemberOf::{inner} runs apply_memberof at a point where {short(dyn, 2)} has not succeeded: memberOf would be computed from stale dynmember values",
+                  f"MemberOf::{hook} runs apply_memberof at a point where {short(dyn, 2)} has not succeeded: memberOf would be computed from stale dynmember values",
                   file=rec["file"], line=(asites[0].node.get("line") if asites else rec["line"]))
+        ctx.sample(f"MemberOf::{hook}: " + " > ".join(f"{s_.ev}@{short(s_.fn, 1)}:{s_.node.get('line')}" for s_ in fl.ordered_sites()))
     # DynGroup's own entry points reach the change function (propagated wherever it is called)
     for fn_ in ("post_create", "post_modify"):
         rec = ctx.fn(LIB, "kanidmd_lib::plugins::dyngroup::DynGroup::" + fn_)
@@ -84,4 +75,4 @@ def run(ctx):
                   f"DynGroup::{fn_} " + ("no longer calls apply_dyngroup_change" if not cs else
                                          "can return success after apply_dyngroup_change was called without propagating its result") + f" — {WHY}",
                   file=rec["file"], line=rec["line"])
-    ctx.floor("K2-dyngroup", "MemberOf hooks routed to DynGroup", len(HOOK_TO_INNER), 5)
+    ctx.floor("K2-dyngroup", "MemberOf hooks routed to DynGroup", len(HOOK_TO_DYN), 5)
